@@ -72,6 +72,7 @@ package delegation
 //@
 //@ pure func inSafeRange(p *int64) bool = p == nil || (-9007199254740991 <= *p && *p <= 9007199254740991)
 //@
+//@ pure func accD(m tokenPayloadModel) bool = parseOK(m.Iss) && parseOK(m.Aud) && (m.Sub == nil || parseOK(*m.Sub)) && validCmd(m.Cmd) && polDecErr(m.Pol) == nil && len(m.Nonce) >= 12 && inSafeRange(m.Nbf) && inSafeRange(m.Exp)
 //@ func tokenFromModel
 //@   ensures [C09] total: true
 //@   requires m.Pol != nil
@@ -87,7 +88,7 @@ package delegation
 //@   ensures [C07] times: result1 == nil ==> (m.Nbf == nil ? result0.notBefore == nil : (result0.notBefore != nil && inst(*result0.notBefore) == *m.Nbf * 1000000000)) && (m.Exp == nil ? result0.expiration == nil : (result0.expiration != nil && inst(*result0.expiration) == *m.Exp * 1000000000))
 //@   // ... and a model made of parseable identifiers, a valid command, a decodable policy, a nonce of 12 bytes or more and
 //@   // time bounds in the safe range is accepted
-//@   ensures [C07] accepts: parseOK(m.Iss) && parseOK(m.Aud) && (m.Sub == nil || parseOK(*m.Sub)) && validCmd(m.Cmd) && polDecErr(m.Pol) == nil && len(m.Nonce) >= 12 && inSafeRange(m.Nbf) && inSafeRange(m.Exp) ==> result1 == nil
+//@   ensures [C07] accepts: accD(m) ==> result1 == nil
 //@
 //@ func New
 //@   requires forall i int :: 0 <= i && i < len(opts) ==> opts[i] != nil
@@ -107,9 +108,10 @@ package delegation
 //@ pure func bindnodeModelsWF() bool =
 //@     forall p *tokenPayloadModel :: p != nil ==> p.Pol != nil && p.Iss == nodeStr(lookupStr(unwrapSrc(box(p)), "iss"))
 //@
+//@ ghost func protoD() schema.TypedPrototype
 //@ func (*tokenPayloadModel).Prototype
 //@   trusted
-//@   ensures result != nil
+//@   ensures result != nil && result == protoD()
 //@
 //@ func FromIPLD
 //@   ensures [C09] total: true
@@ -119,6 +121,8 @@ package delegation
 //@   ensures [C06,C10] envelope: result1 == nil ==> envelopeVerified(node, Tag)
 //@   ensures [C06] issuer: result1 == nil ==> result0 != nil && result0.issuer == parsedDID(nodeStr(lookupStr(tokenPayloadOf(sigPayload(node)), "iss")))
 //@   ensures [C10] wellformed: result1 == nil ==> wfDlg(result0) && validCmd(string(result0.command))
+//@   // C07 (no spurious rejection): an envelope whose every stage is acceptable, carrying an acceptable model, is decoded
+//@   ensures [C07] complete: envAcceptable(node, Tag, protoD()) && unwrapOf(typedNode(reprOf(protoD()), tokenPayloadOf(sigPayload(node)))) is *tokenPayloadModel && unwrapOf(typedNode(reprOf(protoD()), tokenPayloadOf(sigPayload(node)))).(*tokenPayloadModel) != nil && accD(*unwrapOf(typedNode(reprOf(protoD()), tokenPayloadOf(sigPayload(node)))).(*tokenPayloadModel)) ==> result1 == nil
 //@
 //@ // ---- decoders from bytes: decode, then the verified FromIPLD -------------------------------------------
 //@ func Decode
